@@ -305,10 +305,11 @@ func (u *upstream) removeClientLocked(addr string) {
 }
 
 func (u *upstream) resetAllClients() {
-	old := u.loadClients()
-
 	// set clients to empty
+	// NOTE: The old clients must be loaded with the lock held, otherwise a
+	// client which is created meanwhile is dropped without being stopped.
 	u.clientsMu.Lock()
+	old := u.loadClients()
 	u.updateClients(make(map[string]*client))
 	u.clientsMu.Unlock()
 
